@@ -284,11 +284,13 @@ class World:
         return {r['ev'] for r in self.trace if r['k'] == 'enq-ok'}
 
     def descendants(self, tag) -> list[int]:
-        out, st = [], [tag]
+        out, st, seen = [], [tag], {tag}
         while st:
             for c in self.children.get(st.pop(), []):
-                out.append(c)
-                st.append(c)
+                if c not in seen:  # (lineage can be a DAG when handlers dispatch existing objects again)
+                    seen.add(c)
+                    out.append(c)
+                    st.append(c)
         return out
 
     def incomplete_descendants(self, tag) -> list[int]:
@@ -488,8 +490,25 @@ def make_handler(w: World, hi: int, hspec: dict):
             if x is None or x in anc:
                 break
             anc.add(x)
+        if w.sc.get('hre_any'):
+            # with re-dispatch of arbitrary objects lineage is a DAG: everything that reaches this event through children links
+            rev = {}
+            for par_, kids_ in w.children.items():
+                for k_ in kids_:
+                    rev.setdefault(k_, set()).add(par_)
+            stack = list(anc)
+            while stack:
+                for par_ in rev.get(stack.pop(), ()):
+                    if par_ not in anc:
+                        anc.add(par_)
+                        stack.append(par_)
         # ... nor an object with the id of the event being handled (its replica / original): dispatching that is forwarding
-        cands = [t for t in w.roots if t not in anc and w.events[t].event_id != ev.event_id]
+        pool = list(w.roots)
+        if w.sc.get('hre_any'):
+            # ... also objects that some handler dispatched first (they already have a recorded dispatcher / parent)
+            # (only objects still in flight: dispatching a COMPLETED object again is excluded from the completion properties)
+            pool = sorted(t for t in w.accepted if t is not None and t >= 0 and not w.is_complete(w.events[t]))
+        cands = [t for t in pool if t not in anc and w.events[t].event_id != ev.event_id]
         if not cands or w.ndisp >= w.cap:
             w.rec('disp-skip', by=list(me))
             return
@@ -508,6 +527,10 @@ def make_handler(w: World, hi: int, hspec: dict):
         rec['same'] = got is obj
         if not rec['had_parent']:
             w.hre_parent[tag] = ev.tag
+        if w.sc.get('hre_any') and tag not in w.children.get(ev.tag, []):
+            # harness lineage for the completion oracles: whatever a handler dispatches - a fresh or an existing object - has to be
+            # complete before the handler's event is (never an ancestor, so no cycle)
+            w.children.setdefault(ev.tag, []).append(tag)
 
     def do_fwdreplica(ev, me, op):
         """['fwdreplica', bus]: the handler forwards a REPLICA of the event it is handling - same event_id, different object (the event
